@@ -243,7 +243,16 @@ def rule_pred(ctx: Ctx, S: Search):
             and sto[0].value.id == names[1]
         ctx.check(ok, "PRED-2", cp, sto[0], "policy[s] = a for (s, a) = camefrom[ns]", "", "policy maps the wrong component of the predecessor pair")
     else:
-        ctx.unknown("PRED-2", cp, cp.node, "policy from predecessor map", "idiom not recognised")
+        # (tightened after seed C05-b) a policy entry whose action is not read from the predecessor map at all is definitely not the recorded action
+        cf = cp.positional_params[0] if cp.positional_params else "camefrom"
+        anysto = [n for n in ast.walk(cp.node) if isinstance(n, ast.Assign) and isinstance(n.targets[0], ast.Subscript)]
+        uses_map = any(isinstance(x, ast.Name) and x.id == cf for x in ast.walk(cp.node))
+        if anysto and not uses_map:
+            ctx.violation("PRED-2", cp, anysto[0], "policy[s] = a for (s, a) = camefrom[ns]",
+                          f"the plan's action for a state is recomputed (`{norm(anysto[0].value, 70)}`) instead of being the action recorded in the predecessor map `{cf}`: "
+                          "with several actions leading to the same successor the executed plan differs from the one whose cost was searched")
+        else:
+            ctx.unknown("PRED-2", cp, cp.node, "policy from predecessor map", "idiom not recognised")
     # first-discovery guard (BFS) — every container that already holds discovered states is tested
     if S.kind == "bfs":
         node = cfg.node_for(st)
